@@ -21,7 +21,8 @@ THEOREMS = ["C03_zone_getters_valid", "C03_zone_getters_refuse", "C03_getter_dom
             "C03_set_zone_setpoint_decodes_back", "C03_log_entry_valid", "C03_log_entry_refuted", "C03_opentherm_valid", "C03_fragment_request_valid", "C03_registered",
             "C03_set_zone_mode_valid", "C03_set_dhw_mode_valid", "C03_set_dhw_mode_countdown_refuted", "C03_set_dhw_mode_temporary_without_until_refuted",
             "C03_set_dhw_mode_idx_refuted", "C03_set_system_mode_valid", "C03_set_system_time_valid", "C03_set_zone_config_valid", "C03_mode_cmds_registered",
-            "C03_set_dhw_params_valid", "C03_set_mix_valve_params_valid", "C03_put_temp_valid"]
+            "C03_set_dhw_params_valid", "C03_set_mix_valve_params_valid", "C03_put_temp_valid",
+            "C03_set_tpi_params_valid", "C03_set_tpi_params_unchecked_refuted"]
 
 CTL = "01:145038"
 
@@ -447,6 +448,8 @@ def param_commands(ctx: Ctx, built: bool, thorough: bool) -> None:
         w = None if t is None else round(t * 100) % 65536
         cases.append(("st", (t,), f"both V_I 0x30C9 shtemp parser_temp_tail (Some (put_temp_payload {oz(w)}))"))
         cases.append(("dt", (t,), f"both V_I 0x1260 shtemp parser_temp_tail (Some (put_temp_payload {oz(w)}))"))
+    for dom, cyc, on, off, pbw in itertools.product([0, 0xFC, 1, 0xF9], [1, 3, 12, 13, 0], [1, 5, 30, 31, 0], [0, 5, 15, 16], [None, 150, 300, 149, 301, rng.randrange(151, 300)]):
+        cases.append(("tp", (dom, cyc, on, off, pbw), f"both V_W 0x1100 sh1100 parser_1100 (set_tpi_params {dom} {cyc} {on} {off} {oz(pbw)})"))
     tag = {"max_flow_setpoint": 0xC8, "min_flow_setpoint": 0xC9, "valve_run_time": 0xCA, "pump_run_time": 0xCB, "boolean_cc": 0xCC, "unknown_20": 0x20, "unknown_21": 0x21}
     impl = []
     for kind, a, _ in cases:
@@ -455,6 +458,8 @@ def param_commands(ctx: Ctx, built: bool, thorough: bool) -> None:
                 name, cmd = "set_dhw_params", Command.set_dhw_params(CTL, setpoint=a[1] / 100, overrun=a[2], differential=a[3] / 100, dhw_idx=a[0])
             elif kind == "mv":
                 name, cmd = "set_mix_valve_params", Command.set_mix_valve_params(CTL, a[0], max_flow_setpoint=a[1], min_flow_setpoint=a[2], valve_run_time=a[3], pump_run_time=a[4])
+            elif kind == "tp":
+                name, cmd = "set_tpi_params", Command.set_tpi_params(CTL, a[0], cycle_rate=a[1], min_on_time=a[2], min_off_time=a[3], proportional_band_width=None if a[4] is None else a[4] / 100)
             elif kind == "st":
                 name, cmd = "put_sensor_temp", Command.put_sensor_temp("34:123456", a[0])
             else:
@@ -469,6 +474,9 @@ def param_commands(ctx: Ctx, built: bool, thorough: bool) -> None:
             if kind == "dp":
                 dec = [1] + tz(p["setpoint"]) + [p["overrun"]] + tz(p["differential"])
                 asked = [1, 2, a[1], a[2], 2, a[3]]
+            elif kind == "tp":
+                dec = [1, p["cycle_rate"], round(p["min_on_time"] * 4), round(p["min_off_time"] * 4)] + tz(p["proportional_band_width"]) + [1 if "domain_id" in p else 0]
+                asked = [1, a[1], a[2] * 4, a[3] * 4] + tz(None if a[4] is None else a[4] / 100) + [1 if a[0] >= 0xF0 else 0]
             elif kind == "mv":
                 dec = [1] + [x for k, v in p.items() if k in tag for x in (tag[k], v)]
                 asked = [1, 0xC8, a[1], 0xC9, a[2], 0xCA, a[3], 0xCB, a[4], 0xCC, 1]
@@ -480,6 +488,9 @@ def param_commands(ctx: Ctx, built: bool, thorough: bool) -> None:
         except Exception:  # noqa: BLE001
             dec = [9]
             cls = "dhw-idx-let-through" if kind == "dp" and a[0] not in (0, 1) else "out-of-domain" if kind in ("st", "dt") and a[0] is not None and a[0] < -273.15 else "in-domain"
+            if kind == "tp":
+                cls = ("in-domain" if a[0] in (0xF9, 0xFA) else "zone-index-as-domain" if a[0] not in (0, 0xFC) else
+                       "unchecked-arguments" if not (1 <= a[1] <= 12 and 1 <= a[2] <= 30 and 0 <= a[3] <= 15 and (a[4] is None or 150 <= a[4] <= 300)) else "in-domain:numeric")
             ctx.violation(f"constructor-emits-undecodable-frame:{name}:{cls}", f"{name}{a} built {cmd} which the library's decoder rejects", {"constructor": name, "args": repr(a), "frame": str(cmd)}, "input")
         impl.append((cmd.payload, dec))
     if not built:
@@ -489,6 +500,7 @@ def param_commands(ctx: Ctx, built: bool, thorough: bool) -> None:
         "Definition sh10a0 (r : result dhwp) : list Z := match r with Raise _ => [9] | Ok z => [1] ++ tz (dp_setpoint z) ++ [dp_overrun z] ++ tz (dp_differential z) end.\n"
         "Definition sh1030 (r : result (list (Z * Z))) : list Z := match r with Raise _ => [9] | Ok l => 1 :: flat_map (fun x => [fst x; snd x]) l end.\n"
         "Definition shtemp (r : result tempv) : list Z := match r with Raise _ => [9] | Ok t => 1 :: tz t end.\n"
+        "Definition sh1100 (r : result tpi) : list Z := match r with Raise _ => [9] | Ok z => [1; tp_cycle z; tp_on4 z; tp_off4 z] ++ tz (tp_pbw z) ++ [match tp_domain z with Some _ => 1 | None => 0 end] end.\n"
         "Definition both {R} (verb code : Z) (sh : result R -> list Z) (parse : str -> result R) (o : option str) : list (list Z) := match o with None => [[0]] | Some p => [s2z p; if payload_ok verb code p then sh (parse p) else [9]] end.\n")
     shard = 400
     files = {f"q{k // shard}": pre + "".join(f"Eval vm_compute in ({t}).\n" for _, _, t in cases[k:k + shard]) for k in range(0, len(cases), shard)}
@@ -508,7 +520,7 @@ def param_commands(ctx: Ctx, built: bool, thorough: bool) -> None:
             if m_pl != pl or m_dec != dec:
                 bad.append(f"{kind}{a}: model payload {m_pl} decoded {m_dec}; implementation payload {pl} decoded {dec}")
     ctx.obligation("correspondence:param-commands", not bad, "correspondence", f"{len(bad)} of {total} differ; first: {bad[0][:600]}" if bad else
-                   f"{total} argument combinations of set_dhw_params / set_mix_valve_params / put_sensor_temp / put_dhw_temp: payload or refusal, the decoder's verdict and values agree")
+                   f"{total} argument combinations of set_dhw_params / set_mix_valve_params / set_tpi_params / put_sensor_temp / put_dhw_temp: payload or refusal, the decoder's verdict and values agree")
 
 
 def bind_commands(ctx: Ctx) -> None:
